@@ -21,12 +21,20 @@ MANIFEST = {
             "for the transcribed operators (all but == != .== .!=) and the built-ins map filter reduce every some abs floor ceil trunc "
             "sqrt typeof arity to_bool ugt ult ugte ulte any all; corollaries: emission equivalence for closures capturing closures to "
             "any depth with first-order results equal and function results related, re-emission chains related to the original; "
-            "PARTIAL: the other arms of builtin_full, NaN / both-quote captured data (C05_all_builtins_rel_full kept as a Prop); the "
+            "REL round: the relation-respecting hypothesis is now PROVED for EVERY arm of EvalFull.builtin_full except unique / includes "
+            "(C05_all_builtins_rel_full_proved; proofs/RelPure.v: one relation-generic lemma per arm — aggregates, list/string/record "
+            "built-ins, convert round random to_number to_string join, sort_by group_by count_by —, proofs/EmitHOOpsFull.v), so the simulation "
+            "and the emission equivalence hold for bodies mentioning any built-in but those two (C05_ho_simulation_full, "
+            "C05_emit_equiv_higher_order_full); the exclusion is exact: unique / includes apply Value::equals to argument elements, refuted "
+            "in the model and reproduced on the implementation (C05_includes_function_equality_refuted, C05_unique_function_equality_refuted, "
+            "C05_all_builtins_unrestricted_refuted; finding F53); PARTIAL still: NaN / both-quote captured data; the "
             "original C05_full statement is REFUTED (function equality, finding F53); current-code defects are refuted lemmas.  EMIT correspondence: for generated "
             "functions x captured value pool the AST the real parser returns for the real emitted text, and the body of the "
             "real reloaded function, equal the model's inlined AST; behaviour original vs reloaded-in-fresh-session vs "
             "re-emitted-and-reloaded (chains of length 3) on the implementation and through the real CLI binary, incl. closures capturing "
-            "closures capturing closures and functions returned by reloaded functions and then called (capture-depth distribution in the evidence)",
+            "closures capturing closures and functions returned by reloaded functions and then called (capture-depth distribution in the evidence); "
+            "EMIT-FULLBI: bodies using the full built-in set over captured data / closures / lists of closures, law on the implementation and "
+            "the model run with the full dispatcher (coq/EmitRunFull.v)",
     "note": "trusted: Coq kernel + vm_compute; Emit.v / Eval.v transcriptions validated by the EMIT stream; the text layer "
             "(printer/parser round trip) is C07's and is exercised here only through the real parser; no axioms",
     "design_ref": "DESIGN.md section 6 C05; notes/C05.md",
